@@ -2,8 +2,10 @@
 Driver for C14.
   conn cap=<B|gen> chunks=<hex,hex,...|-> reads=<k,k,...|->
     -> hello=<ok:<n>|err:<class>> reads=<hex,...>
+  sniff <hex of one whole record>          -> name=<hex> n=<count> first=<hex> | reject
 -/
 import PubModel.C14.Model
+import PubModel.C14.Hello
 import PubModel.Gen.Hello
 open PubModel PubModel.C14
 
@@ -36,6 +38,13 @@ def step (_ : Unit) (line : String) : Unit × String :=
           (r', p.2 ++ [Hex.encode o])) (r1, [])
         s!"hello={h} reads={",".intercalate outs}"
       | _, _, _ => "bad-op"
+    | ["sniff", h] =>
+      match Hex.decode h with
+      | some bs =>
+        match Hello.sniff bs with
+        | some i => s!"name={Hex.encode i.name} n={i.protoCount} first={Hex.encode i.firstProto}"
+        | none => "reject"
+      | none => "bad-op"
     | _ => "bad-op"
   ((), out)
 
